@@ -93,7 +93,13 @@ pub fn drive(seed: u64, outdir: &str, thorough: bool) {
     let _ = std::fs::remove_file(&trace);
     let jn = j.to_string();
     let sched_s = sched.to_string();
-    let args = ["run", "-p", "foo($A)", "-l", "js", "--json=stream", "--inspect", "summary", "-j", &jn, "."];
+    // both workers share run_worker: `sg run` (pattern) and `sg scan` (rule file); every other job scans
+    let use_scan = idx % 2 == 1;
+    if use_scan {
+      p.write(".verif-rule.yml", br#"{"id": "r", "language": "JavaScript", "severity": "warning", "message": "m", "rule": {"pattern": "foo($A)"}}"#);
+    }
+    let args: Vec<&str> = if use_scan { vec!["scan", "-r", ".verif-rule.yml", "--json=stream", "--inspect", "summary", "-j", &jn, "."] }
+      else { vec!["run", "-p", "foo($A)", "-l", "js", "--json=stream", "--inspect", "summary", "-j", &jn, "."] };
     let env = [("AST_GREP_VERIF_TRACE", trace.as_str()), ("AST_GREP_VERIF_SCHED", sched_s.as_str())];
     let o = if *slow { cli::run_sgv_slow_reader(&args, &p.root, 120, &env, 1200) } else { run_sgv(&args, &p.root, None, 120, &env) };
     p.remove();
@@ -130,7 +136,7 @@ pub fn drive(seed: u64, outdir: &str, thorough: bool) {
       }
     }
     let (exp, faulty) = &expected[tree];
-    let config = json!({"ev": "config", "id": format!("tree{tree}-j{j}-r{rep}{}", if *slow { "-slowreader" } else { "" }), "threads_flag": j, "sched": sched,
+    let config = json!({"ev": "config", "id": format!("tree{tree}-j{j}-r{rep}{}", if *slow { "-slowreader" } else { "" }), "threads_flag": j, "sched": sched, "front": if use_scan { "scan" } else { "run" },
       "files": outcome.keys().collect::<Vec<_>>(), "outcome": outcome.values().collect::<Vec<_>>(), "tids": tids,
       "all_files": files.iter().map(|f| f.0.clone()).collect::<Vec<_>>(), "n_files": files.len(), "faulty": faulty,
       "expected": exp, "printed": printed, "parsed": parsed, "scanned": scanned, "skipped": skipped, "exit": o.code,
